@@ -104,6 +104,9 @@ class RecorderPlugin(PluginBase):
         ids = sorted(n.id for n in interpreter._active_state_nodes)
         self.log.append("#t:" + ",".join(ids))
 
+    def on_event_received(self, interpreter, event):
+        self.log.append("#recv:" + event.type)
+
     def on_action_error(self, interpreter, action, error):
         self.log.append("#aerr:" + action.type)
 
